@@ -19,7 +19,7 @@ CHECKS = {
 SVM = "Trusted base: svm-lite (native loader/CPI/sysvar emulation, DESIGN §2.1) and the shims; the token programs are the real SPL processors. Bounded: alphabets, roots and the completed depth are listed in the evidence file; a capped depth is reported as such."
 CHECKS.update({
  "C01": (A, "model_checking",
-   "explicit-state search: all op sequences up to a depth bound on the real program; invariant on every state; drains in all orders; swap-only histories in ledger mode; the alphabet includes requests the program must refuse (inverted ranges, 2^128-x withdrawal amounts, neighbouring tick arrays) whose acceptance would open states the invariant then judges; fixed must-succeed histories on pools created with an arbitrary legacy bump argument and on an adaptive-fee pool (deposit, trade, both decrease instructions, reposition, collect)",
+   "explicit-state search: all op sequences up to a depth bound on the real program; invariant on every state; drains in all orders; swap-only histories in ledger mode; the alphabet includes requests the program must refuse (inverted ranges, 2^128-x withdrawal amounts, neighbouring tick arrays) whose acceptance would open states the invariant then judges; fixed must-succeed histories on pools created with an arbitrary legacy bump argument and on an adaptive-fee pool; a fixed case of 42 instructions naming the pool's own vault as the caller's token account (deposit, trade, both decrease instructions, reposition, collect)",
    "Every reachable state of every increase/decrease/swap/update/collect sequence up to the completed depth (5 roots, 2-4 worlds, fixed+dynamic arrays) satisfies vault >= protocol fees + position fees (after a real update) + exact withdrawable amounts; closing out all positions and protocol fees succeeds in every order with real token transfers; no swap-only history leaves the trader ahead.",
    SVM, "DESIGN.md §3 C01"),
  "C03": (A, "model_checking",
@@ -102,7 +102,7 @@ CHECKS.update({
    "Every two-hop over every reachable pool-pair state within the depth bound leaves a ledger byte-identical to leg one followed by leg two (pools, tick arrays, oracles, vaults, trader accounts, events) and fails exactly when a leg fails alone, the intermediate amounts differ, the pools coincide or share no mint, or the threshold is violated; SPL, Token-2022 and transfer-fee-on-the-intermediate worlds; adaptive-fee pools on a route.",
    SVM + " Quick tier explores depth 1 from two roots; deeper prefixes in the thorough tier (wall-capped under load, reported).", "DESIGN.md §3 C17"),
  "C20": (A, "model_checking",
-   "differential inside an explicit-state search: in every state a 60-swap alphabet is executed on the real program and quoted by the Rust core SDK on facades decoded from the same bytes (static, adaptive-fee and transfer-fee pools); function-level enumeration: all ticks both ways, amount/price/fee helpers and liquidity quotes over boundary alphabets; ethnum shim self-check vs num-bigint; liquidity quotes with a transfer fee on one / both mints against the program\'s own fee functions; roots drained to the protocol price bounds; a world on the lowest tick (tick spacing 4); array-edge worlds with tick spacing 1 and 64; quotes by one token amount with a capped transfer fee at several slippage tolerances",
+   "differential inside an explicit-state search: in every state a 60-swap alphabet is executed on the real program and quoted by the Rust core SDK on facades decoded from the same bytes (static, adaptive-fee and transfer-fee pools); function-level enumeration: all ticks both ways, amount/price/fee helpers and liquidity quotes over boundary alphabets; ethnum shim self-check vs num-bigint; liquidity quotes with a transfer fee on one / both mints against the program\'s own fee functions; roots drained to the protocol price bounds; a world on the lowest tick (tick spacing 4); array-edge worlds with tick spacing 1 and 64; a world over an adaptive-fee tier with the reserved index, built only if the program accepts it; quotes by one token amount with a capped transfer fee at several slippage tolerances",
    "Whenever the program's swap succeeds the SDK returns identical in/out/fee; where it refuses, the SDK returns a number only for partial exact-out fills (running off the arrays never produced an SDK number); conversions equal on all 887273 ticks and boundary prices; helpers equal or SDK errors where the program rejects as overflowing; slippage bounds on the safe side. Two recorded findings (quote before trade-enable time; exact-in token_in over a transfer-fee mint) are listed in known_findings.json; two defects were repaired (fix: commits).",
    SVM + " rust-sdk/core is built against a U256 shim (ethnum is not available offline) that is itself checked exhaustively against num-bigint on a value alphabet before use. TypeScript/WASM target not run (same Rust source).", "DESIGN.md §3 C20"),
 })
